@@ -122,10 +122,30 @@ def consuming(e) -> bool:
     return False
 
 
+_BUILT = []
+
+
+def _retire_old_classes(P, cls):
+    """The library keeps every rule object of every class alive in `Rule._obj_map` (and with them their ParseCaches in the
+    WeakSet that `clear_caches()` walks): after tens of thousands of generated grammars every `clear_caches()` takes
+    milliseconds and long runs become quadratic.  Registry entries of generated classes built long ago (none of the
+    checks keeps using a generated class after 64 newer ones were built) are dropped - harness hygiene only: classes are
+    isolated namespaces (C10), so later grammars cannot observe it."""
+    _BUILT.append(cls)
+    if len(_BUILT) > 96:
+        dead = set(_BUILT[:-64])
+        del _BUILT[:-64]
+        for k in [k for k in P.Rule._obj_map if k[0] in dead]:
+            del P.Rule._obj_map[k]
+        import gc
+        gc.collect()
+
+
 def build(P, grammar, tag=[0]):
     """Build the grammar through the public object API in a fresh Rule subclass."""
     tag[0] += 1
     cls = type(f"Gen{tag[0]}", (P.Rule,), {})
+    _retire_old_classes(P, cls)
     rules = [cls(name) for name, _, _ in grammar] + [cls("undefined-rule")]
 
     def mk(e):
@@ -377,6 +397,7 @@ def build_from_text(P, grammar, tag=[0]):
         lines.append(f"{name} = {render_elem(ast)}")
     text = "\r\n".join(lines) + "\r\n"
     cls = type(f"GenT{tag[0]}", (P.Rule,), {})
+    _retire_old_classes(P, cls)
     cls.load_grammar(text, strict=False)
     rules = [cls(name) for name, _, _ in grammar] + [cls(f"r{n}")]
     for r, (_, ast, ex) in zip(rules, grammar):
